@@ -38,6 +38,16 @@ type ContentPlan struct {
 	// MinTraces: every tx has at least this many traces (trace mode)
 	MinTraces int `json:"min_traces,omitempty"`
 	MinTx     int `json:"min_tx,omitempty"`
+	// Seeded: blocks 1..UpTo each carry one log of Event per pool address
+	// (as value of input AddrInput), so that a referenced table contains the
+	// whole pool before any dependent block is processed.
+	Seeded []SeededLogs `json:"seeded,omitempty"`
+}
+
+type SeededLogs struct {
+	Event     *model.Event `json:"event"`
+	AddrInput int          `json:"addr_input"`
+	UpTo      uint64       `json:"up_to"`
 }
 
 type FaultPlan struct {
@@ -70,7 +80,9 @@ type Plan struct {
 	SharedPool bool `json:"shared_pool,omitempty"`
 	// Checks selects oracle families beyond the always-on ones.
 	Checks map[string]bool `json:"checks,omitempty"`
-	Note   string          `json:"note,omitempty"`
+	// Idle lists pair keys ("src/ig") that get no runner (never started).
+	Idle []string `json:"idle,omitempty"`
+	Note string   `json:"note,omitempty"`
 }
 
 func (p *Plan) JSON() string {
